@@ -8,6 +8,7 @@ open SafeHtml
 inductive ExecErr where
   | exec          -- text/template returned an error (sanitizer error, bad field access, …)
   | depth         -- "exceeded maximum template depth" (the model caps the call depth at 1000)
+  | nilTree       -- a called template has a nil Tree: text/template dereferences it (run-time panic)
   | unsupported
   | fuel
   deriving DecidableEq, Repr
@@ -19,6 +20,7 @@ def Value.isTrue : Value → Bool
   | .int i => i != 0
   | .bool b => b
   | .nil => false
+  | .noValue => false
   | .list vs => match vs with | .nil => false | _ => true
   | .map kvs => match kvs with | .nil => false | _ => true
   | .ptr _ => true
@@ -30,7 +32,8 @@ def fieldChain : Value → List String → Except ExecErr Value
     | .map kvs =>
       match kvs.get f with
       | some x => fieldChain x rest
-      | none => if rest.isEmpty then .ok .nil else .error .exec   -- missing key ⇒ <no value>/nil
+      | none => .ok .noValue   -- missing key ⇒ invalid value
+    | .noValue => .ok .noValue   -- field of an invalid value: invalid again, no error
     | .nil => .error .exec
     | _ => .error .exec
 
@@ -123,17 +126,18 @@ def walkNode (text : TextSet) (depth : Nat) : Nat → Value → Value → Bytes 
           | .nil => walkList text depth f dot root out e
           | _ => walkRange text depth f (kvs.toList.map (·.2)) root out t
         | .nil => walkList text depth f dot root out e
+        | .noValue => walkList text depth f dot root out e
         | _ => ⟨out, some .unsupported⟩
     | .tmpl _ name p =>
       match text.lookup name with
       | some (some tr) =>
         let dv : Except ExecErr Value := match p with
-          | none => .ok .nil
+          | none => .ok .noValue
           | some pp => evalPipe dot root pp
         match dv with
         | .error er => ⟨out, some er⟩
         | .ok d => if depth ≥ 1000 then ⟨out, some .depth⟩ else walkList text (depth + 1) f d d out tr.root
-      | some none => ⟨out, some .unsupported⟩   -- nil tree: Go dereferences nil (panic), reported by Api
+      | some none => ⟨out, some .nilTree⟩
       | none => ⟨out, some .exec⟩
     | _ => ⟨out, some .unsupported⟩
 
